@@ -13,8 +13,8 @@ import (
 	"verif/h/ev"
 )
 
-// Finding seen on the unchanged tree (see the final report / KNOWN_FINDINGS.json if it was
-// recorded rather than repaired): for a partition that is neither assigned nor committed
+// Finding first seen with this check and since repaired in /repo ("fix: kadm group lag stays
+// -1 ..."; the reverse patch is /verif/seeded/orig-C35/patch.diff): for a partition that is neither assigned nor committed
 // but listed because it appears in the end offsets of a topic of interest, an ERRORED end
 // offset together with a good start offset yields Lag = max(0, end.Offset-start.Offset)
 // with Err set, instead of Lag = -1.
